@@ -5,6 +5,8 @@ from harness.known import replay_known  # noqa: F401
 
 MODULES = ["Univers.Props.C03", "Univers.Scheme.TablesThm"]
 LEVEL = "proof"
+# textual tie (regular expressions of /repo as the recognisers read them): runner step 3a
+TIE_THEOREMS = {"Univers.Scheme.RegexPins": ["Univers.Tables.regex_sites_pinned", "Univers.Tables.compiled_patterns_pinned"]}
 RULE = ("per scheme: pairs of version texts over the scheme's full grammar (epochs, revisions, leading zeros, tildes, carets, "
         "letter suffixes, pre/post/dev tags, qualifiers and aliases, build metadata, case variants, unequal segment counts) "
         "plus respelled and mutated neighbours; the sign derived from the real '<', '==', '>' against the Lean reference sort "
